@@ -10,5 +10,8 @@ CONSTANTS
   NEndpoints = 2
   Kinds = {"echo"}
   NOptions = 1
+  Statuses = {204}
+  PlainShare = 0
+  NForwarding = 1
   UnderscoreNames = TRUE
 INVARIANT EncodingsAgree
